@@ -46,8 +46,10 @@ impl<'n> TryFromNode<'n> for Field {
         } else {
             node.attribute("minOccurs") == Some("0") || parent_is_optional
         };
-        let parent_is_vec = node.parent().and_then(|n| n.attribute("maxOccurs")) == Some("unbounded");
-        let is_vec = Node::attribute(&node, "maxOccurs") == Some("unbounded") || parent_is_vec;
+        // any maxOccurs other than 1 (a number or "unbounded") means that the member may repeat
+        let repeats = |n: &Node| n.attribute("maxOccurs").is_some_and(|max| max != "1" && max != "0");
+        let parent_is_vec = node.parent().is_some_and(|n| repeats(&n));
+        let is_vec = repeats(&node) || parent_is_vec;
         let is_choice = node.parent().is_some_and(|n| n.tag_name().name() == "choice");
 
         // check if this is an any type
